@@ -265,6 +265,32 @@ pub mod verif_valgate {
     pub fn allow_vals(m: u32) { unsafe { ALLOWED_VALS = m; } }
     #[inline(always)] pub fn gate_val(k: u32) { if unsafe { ALLOWED_VALS } & (1 << k) == 0 { panic!("value kind outside the set declared by the harness") } }
     #[inline(always)] pub fn gate_val_of<T: ValKind>(_: &T) { gate_val(T::K) }
+    pub const V_STRING: u32 = 5;
+    #[inline(always)] pub fn gate_eq(v: &Variable) {
+        match v {
+            Variable::Function(_) => gate_val(V_FUNCTION),
+            Variable::Array(_) => gate_val(V_ARRAY),
+            Variable::Mut(_) => gate_val(V_MUT),
+            Variable::Tuple(_) => gate_val(V_TUPLE),
+            Variable::Struct(_) => gate_val(V_STRUCT),
+            Variable::String(_) => gate_val(V_STRING),
+            _ => (),
+        }
+    }
+    pub fn rebuild(v: &Variable) -> Variable {
+        match v {
+            Variable::Bool(x) => Variable::Bool(*x),
+            Variable::Int(x) => Variable::Int(*x),
+            Variable::Float(x) => Variable::Float(*x),
+            Variable::Void => Variable::Void,
+            Variable::String(x) => { gate_val(V_STRING); Variable::String(x.clone()) }
+            Variable::Function(x) => { gate_val(V_FUNCTION); Variable::Function(x.clone()) }
+            Variable::Array(x) => { gate_val(V_ARRAY); Variable::Array(x.clone()) }
+            Variable::Mut(x) => { gate_val(V_MUT); Variable::Mut(x.clone()) }
+            Variable::Tuple(x) => { gate_val(V_TUPLE); Variable::Tuple(x.clone()) }
+            Variable::Struct(x) => { gate_val(V_STRUCT); Variable::Struct(x.clone()) }
+        }
+    }
     pub static mut STUB_ELEMENT_TYPE: bool = false;
     pub fn stub_element_type(on: bool) { unsafe { STUB_ELEMENT_TYPE = on; } }
     pub fn element_type_stubbed() -> bool { unsafe { STUB_ELEMENT_TYPE } }
